@@ -11,7 +11,8 @@ TRUSTED = [
     "slice::sort on UseTree's Ord is modelled by a stable insertion sort (valid where Ord is a consistent order)",
 ]
 NAMES = ["a", "b", "c", "std", "core", "foo", "Bar", "BAZ", "x1", "r#try", "d"]
-VIS = ["", "pub", "pub(crate)", "pub(super)", "pub(in a)"]
+# restricted visibilities include pairs where one path is a prefix of the other: they are different visibilities
+VIS = ["", "pub", "pub(crate)", "pub(super)", "pub(in a)", "pub(in crate::a)", "pub(in super::super)", "pub(in a::b)"]
 ATTRS = [None, "#[cfg(x)]", "#[allow(unused)]"]
 GRAN = ["Preserve", "Item", "Module", "Crate", "One"]
 
@@ -78,9 +79,29 @@ def gen_cases(tier, seed):
             body = dcl.split("use ", 1)[1].rstrip(";")
             items.append({"vis": vis, "attrs": attrs, "cmt": False, "m": body, "r": body})
         cases.append(mk_case(items, g, "Preserve", True, "2015"))
-    for _ in range(n):
+    for ci in range(n):
         k = rnd.choice([1, 2, 2, 3, 3, 4, 5, 6])
         items = []
+        if ci % 3 == 0:
+            # a family: declarations that extend one base path by 0..2 segments (the bare prefix included), in random
+            # order, mostly with one visibility -- the shapes on which merge / merge_rest / share_prefix do real work
+            base = [rnd.choice(NAMES[:8]) for _ in range(rnd.randint(1, 3))]
+            v0 = rnd.choice(VIS[:2] * 2 + VIS)
+            for _ in range(k):
+                cut = rnd.randint(1, len(base))
+                segs = base[:cut] + [rnd.choice(NAMES) for _ in range(rnd.choice([0, 0, 1, 1, 1, 2]))]
+                t = rnd.random()
+                if t < 0.1:
+                    segs.append("*")
+                elif t < 0.2:
+                    segs.append("{self, %s}" % rnd.choice(NAMES))
+                elif t < 0.3:
+                    segs[-1] = segs[-1] + " as " + rnd.choice([x for x in NAMES[:7] + ["_"] if x != segs[-1]])
+                m = "::".join(segs)
+                items.append({"vis": v0 if rnd.random() < 0.85 else rnd.choice(VIS), "attrs": rnd.choice([None] * 9 + ATTRS), "cmt": False, "m": m, "r": m})
+            cases.append(mk_case(items, rnd.choice(GRAN[1:]), rnd.choice(["Preserve", "StdExternalCrate", "One"]),
+                                 rnd.random() < 0.8, rnd.choice(["2015", "2015", "2018"])))
+            continue
         for _ in range(k):
             if items and rnd.random() < 0.12:
                 items.append(dict(rnd.choice(items)))       # duplicate
@@ -232,7 +253,7 @@ def run(tier, seed, replay):
             if lo is None and r.get("out_items") is None:
                 key = "output_unparsable"
                 import re as _re
-                if any(_re.search(r"![^,{}]*\{\}", it["m"]) for it in c["items"]):
+                if any(commented_empty(it["m"]) for it in c["items"]):
                     key = "unparsable:CommentedEmptyNestedList"
                 elif opt(bad) is True:
                     key = "badclass_unparsable:" + class_name(classes, c["g"])
@@ -263,7 +284,7 @@ def run(tier, seed, replay):
     step = max(1, len(cases) // 4)
     rep.coverage.update({
         "evaluations": len(cases), "distinct_nontrivial": len(nontrivial),
-        "rule": "seeded random runs of 1..6 use declarations (nested lists to depth 3 below the top, globs, self/super/crate, aliases incl. _, raw identifiers, 5 visibilities, 3 attribute sets, comments on nested and top-level trees, duplicates) x imports_granularity x group_imports x reorder_imports x edition; (a) regrouped trees and written groups compared with the model, (b) leaves of the re-parsed output compared with the leaves of the input. non-trivial = >= 2 declarations and granularity != Preserve; distinct by hash",
+        "rule": "seeded random runs of 1..6 use declarations (one third of them families extending a common base path, the bare prefix included; nested lists to depth 3 below the top, globs, self/super/crate, aliases incl. _, raw identifiers, 8 visibilities (restricted paths that are prefixes of one another included), 3 attribute sets, comments on nested and top-level trees, duplicates) x imports_granularity x group_imports x reorder_imports x edition; (a) regrouped trees and written groups compared with the model, (b) leaves of the re-parsed output compared with the leaves of the input. non-trivial = >= 2 declarations and granularity != Preserve; distinct by hash",
         "samples": [{k: v for k, v in cases[i].items() if k in ("text", "config")} for i in range(0, len(cases), step)][:4],
         "correspondence_disagreements": len(disagreements),
         "traces_validated_against_impl": len(cases) if model is not None else 0,
@@ -271,6 +292,48 @@ def run(tier, seed, replay):
         "harness_build_s": round(bt, 1),
     })
     return rep.finish()
+
+
+def split_top(t):
+    """split a list body at top-level commas"""
+    out, depth, cur = [], 0, ""
+    for ch in t:
+        if ch == "{":
+            depth += 1
+        elif ch == "}":
+            depth -= 1
+        if ch == "," and depth == 0:
+            out.append(cur.strip())
+            cur = ""
+        else:
+            cur += ch
+    if cur.strip():
+        out.append(cur.strip())
+    return out
+
+
+def denotes_nothing(tree):
+    """every path of the tree ends in an empty list"""
+    tree = tree.lstrip("!")
+    k = tree.find("{")
+    if k < 0:
+        return False
+    body = tree[k + 1:tree.rindex("}")]
+    subs = split_top(body)
+    return all(denotes_nothing(x) for x in subs)
+
+
+def commented_empty(m):
+    """some nested tree carrying a comment (marked `!`) denotes nothing (its paths all end in `{}`)"""
+    k = m.find("{")
+    if k < 0:
+        return False
+    for sub in split_top(m[k + 1:m.rindex("}")]):
+        if sub.startswith("!") and denotes_nothing(sub):
+            return True
+        if commented_empty(sub.lstrip("!")):
+            return True
+    return False
 
 
 def unalias(path):
